@@ -12,7 +12,7 @@ from ..common import MachineryError, NCPU
 from .. import build, tlc, run, idb, cpplib
 
 BATCH = 200
-QUICK = ["Export_sections", "Export_kinds", "Export_nested", "Export_files", "Export_filetops", "Export_tops", "Export_cmds"]
+QUICK = ["Export_sections", "Export_kinds", "Export_nested", "Export_files", "Export_filetops", "Export_tops", "Export_tops2", "Export_cmds"]
 THOROUGH = [c + "_t" for c in QUICK]
 
 
@@ -23,6 +23,10 @@ def classes_of(cs):
     cm = lib["cmd"]
     if cm["c"] == "ignoremember" and cs.cls[cm["k"] - 1]["members"][cm["i"] - 1]["k"] in ("data", "datap"):
         out.append("C04-ignoremember-data")
+    # a class that build() never scans (namespace member) and that an exported namespace-scope function mentions
+    for d in lib["tops"]:
+        if d["k"] == "usef" and d["region"] and not d["ns"] and cs.cls[d["rc"] - 1]["ns"]:
+            out.append("C04-late-type-unwrapped")
     return out
 
 
